@@ -208,6 +208,10 @@ def scripted_specs():
     out.append(dict(base, vp="MAJOR.MINOR.PATCH", old="1.2.3", flags=["--patch"], raw_entries=[("docs/*.md", ["Version: {version}"]), ("docs/index.md", ["pip install demo=={version}"])], files=[
         mk("docs/index.md", ["Version: {version}", "pip install demo=={version}"], [[O(0)], [T("run "), O(1)]]),
         mk("docs/changelog.md", ["Version: {version}"], [[O(0)], [T(hist)]])]))
+    # the same layout for a legacy version pattern
+    out.append(dict(base, legacy=True, vp="{semver}", old="1.2.3", flags=["--patch"], raw_entries=[("docs/*.md", ["Version: {version}"]), ("docs/index.md", ["pip install demo=={version}"])], files=[
+        mk("docs/index.md", ["Version: {version}", "pip install demo=={version}"], [[O(0)], [T("run "), O(1)]]),
+        mk("docs/changelog.md", ["Version: {version}"], [[O(0)], [T(hist)]])]))
     # the match of a later pattern ENCLOSES the match of an earlier one on one line (it is then skipped there) and stands apart from it on
     # another line; the version grows in length
     out.append(dict(base, vp="MAJOR.MINOR.PATCH", old="1.2.9", flags=["--patch"], files=[
